@@ -48,6 +48,9 @@ thread_local! {
 }
 static ACTIVE: Mutex<Option<Arc<Inner>>> = Mutex::new(None);
 
+/// (worker, call, mutating, return value, errno) of every call under the root made by workers (filled in the Post phase).
+pub static EVENT_LOG: Mutex<Vec<(usize, String, bool, i64, i32)>> = Mutex::new(Vec::new());
+
 fn active() -> Option<Arc<Inner>> {
     ACTIVE.lock().unwrap().clone()
 }
@@ -177,13 +180,21 @@ pub fn run_schedule(
         clock: AtomicU64::new(0),
     });
     *ACTIVE.lock().unwrap() = Some(inner.clone());
+    EVENT_LOG.lock().unwrap().clear();
     install_hooks(visible);
     shim::arm(
         root,
         Arc::new(move |ev, ph| {
-            if let Phase::Pre = ph {
-                if visible(ev) {
-                    yield_here(format!("fs:{}", canon_label(&ev.show())), None);
+            match ph {
+                Phase::Pre => {
+                    if visible(ev) {
+                        yield_here(format!("fs:{}", canon_label(&ev.show())), None);
+                    }
+                }
+                Phase::Post { ret, err } => {
+                    if let Some(id) = WORKER.with(|w| w.get()) {
+                        EVENT_LOG.lock().unwrap().push((id, canon_label(&ev.show()), ev.mutating, ret, err));
+                    }
                 }
             }
             0
